@@ -775,6 +775,30 @@ pub fn run(ctx: &mut Ctx) {
             }
         }
     }
+    // characters that some Unicode mapping (upper case, lower case, compatibility forms) turns into ASCII letters or
+    // digits — ı ſ ß ﬁ ﬀ ŉ, the Kelvin and Ångström signs, full-width letters and digits — are not digits of any
+    // alphabet: put in the place of a digit of otherwise valid text (so that every length is still right), or added
+    // to it, they make the text invalid
+    for enc in ENC {
+        let valid: Vec<String> = [&b"A1"[..], &b"A3"[..], &b"xI\x88"[..], &b"x"[..], &b"hello world"[..], &b"\x00\x01\x02\x03\x04"[..]].iter()
+            .filter_map(|b| run_word(&base, enc, &[bytes_cell(b)]).top.as_ref().and_then(str_of_cell)).collect();
+        for v in &valid {
+            let chars: Vec<char> = v.chars().collect();
+            for at in 0..chars.len().min(10) {
+                for ch in ['ı', 'ſ', 'ß', 'ﬁ', 'ﬀ', 'ŉ', '\u{212A}', '\u{212B}', 'İ', 'ǰ', '\u{FF21}', '\u{FF11}', '\u{FF41}', 'ª', '²'] {
+                    let mut t: String = chars[..at].iter().collect();
+                    t.push(ch);
+                    t.extend(chars[at + 1..].iter());
+                    ctx.tag("case-mapped-to-ascii:in-place-of-a-digit");
+                    decode_oracle(ctx, &base, enc, &t, false);
+                }
+            }
+        }
+        for t in ["ı", "ſ", "ß", "ﬁ", "ﬀ", "ßß", "ﬁﬁ", "ııııııı=", "ſſſſſ", "\u{212A}\u{212A}"] {
+            ctx.tag("case-mapped-to-ascii:alone");
+            decode_oracle(ctx, &base, enc, t, false);
+        }
+    }
     // z85 tail scopes: every tail shape `#…#` + letters, including the all-marks chunk
     for marks in 0..=5 {
         for body in ["", "00000", "HelloWorld"] {
